@@ -7,6 +7,7 @@
 //   - records every file-system-mutating system call that touches the sandbox (translated to the model alphabet),
 //   - reads the destination after each such call while the calling thread is stopped (deterministic reader),
 //   - kills the whole process immediately before its k-th mutating call when KillAt = k > 0.
+//
 // Unknown mutating system calls fail closed (the trace is reported as untranslatable).
 package main
 
@@ -53,6 +54,7 @@ type TraceResult struct {
 	Error     string   `json:"error,omitempty"`
 	Syscalls  int      `json:"syscalls"` // all syscall stops seen (measured)
 	Reads     int64    `json:"reads"`    // observations made by the free-running readers
+	Restarts  int      `json:"restarts"` // interrupted-and-restarted system calls (not events)
 	ReaderBad string   `json:"reader_bad,omitempty"`
 }
 
@@ -139,13 +141,13 @@ var errnoNames = map[syscall.Errno]string{
 }
 
 type fdInfo struct {
-	path   string // absolute path at open time
-	in     bool   // inside the sandbox
-	write  bool   // opened for writing
-	off    int64  // sequential write offset
-	lastC  int    // content id of the previous chunk (-1 none)
-	isDir  bool
-	canon  string
+	path  string // absolute path at open time
+	in    bool   // inside the sandbox
+	write bool   // opened for writing
+	off   int64  // sequential write offset
+	lastC int    // content id of the previous chunk (-1 none)
+	isDir bool
+	canon string
 }
 
 type pend struct {
@@ -493,6 +495,16 @@ func (t *tracer) onExit(tid int, regs *syscall.PtraceRegs) {
 		return
 	}
 	ret := int64(regs.Rax)
+	// A call interrupted by a signal (the Go runtime preempts with SIGURG) ends with a kernel-internal restart
+	// code at the exit stop and is then re-entered transparently, or returns EINTR and is retried by the Go
+	// runtime: it had no effect and is not a call of its own. Its crash point is given back.
+	if ret == -512 || ret == -513 || ret == -514 || ret == -516 || ret == -int64(syscall.EINTR) {
+		if p.rel && p.kill && t.active && t.nKill > 0 {
+			t.nKill--
+		}
+		t.res.Restarts++
+		return
+	}
 	res := "ok"
 	if ret < 0 && ret > -4096 {
 		e := syscall.Errno(-ret)
